@@ -85,6 +85,8 @@ type Ctx struct {
 	stableNames bool
 	nzDone    map[string]bool
 	definesUsed map[string]bool
+	specFacts   map[string]bool
+	gcOrder     int
 	stableFV  map[string]bool
 	provIDs   map[string]int
 	chanLinksUsed map[string]bool
@@ -632,6 +634,12 @@ func (c *Ctx) enterLoop(h *ssa.BasicBlock, mp []mergePred, mpIdx []int, r string
 				}
 			case *ssa.Go, *ssa.MapUpdate, *ssa.Send, *ssa.Select:
 				havocAll = true
+			case *ssa.Next:
+				if x.IsString {
+					// the hidden position of a string iterator advances
+					nonLocalStore = true
+					modPrefixes = append(modPrefixes, "RP|str")
+				}
 			}
 		}
 	}
@@ -888,6 +896,16 @@ func (c *Ctx) doReturn(x *ssa.Return, st *State) {
 	}
 	var results []*Val
 	for _, r := range x.Results {
+		if a := lateReadVar(x, r); a != nil {
+			// `return z, f(&z)`: Go leaves the order of the variable read and the call
+			// unspecified; go/ssa reads first, the gc compiler (the one that builds the
+			// node) reads plain variables after the calls of the statement. Follow gc.
+			if p, ok := c.vals[a]; ok {
+				results = append(results, c.load(p, a.Type().Underlying().(*types.Pointer).Elem(), st))
+				c.gcOrder++
+				continue
+			}
+		}
 		results = append(results, c.operand(r, st))
 	}
 	c.retReach = append(c.retReach, c.curReach)
@@ -1051,6 +1069,93 @@ func typeNameMatches(key, name string) bool {
 	}
 	if strings.HasSuffix(key, "."+name) || strings.HasSuffix(key, "/"+name) {
 		return true
+	}
+	return false
+}
+
+// lateReadVar: the result operand r of return x is a load of a local variable that go/ssa
+// placed before a call of the same block which receives the variable's address (and only
+// the return uses the loaded value): returns the variable.
+func lateReadVar(x *ssa.Return, r ssa.Value) *ssa.Alloc {
+	ld, ok := r.(*ssa.UnOp)
+	if !ok || ld.Op != token.MUL || ld.Block() != x.Block() {
+		return nil
+	}
+	a, ok := ld.X.(*ssa.Alloc)
+	if !ok {
+		return nil
+	}
+	if refs := ld.Referrers(); refs != nil {
+		for _, u := range *refs {
+			if _, dbg := u.(*ssa.DebugRef); !dbg && u != ssa.Instruction(x) {
+				return nil
+			}
+		}
+	}
+	seen := false
+	for _, in := range x.Block().Instrs {
+		if in == ssa.Instruction(ld) {
+			seen = true
+			continue
+		}
+		if !seen {
+			continue
+		}
+		if ci, ok := in.(*ssa.Call); ok {
+			for _, arg := range ci.Common().Args {
+				if arg == ssa.Value(a) {
+					return a
+				}
+			}
+		}
+	}
+	return nil
+}
+
+// addRelevantAxioms: the axioms of the property (assumed facts about ghost and spec
+// functions; listed in the evidence) are added to a function's verification conditions
+// when they talk about a ghost/spec function that these conditions use. Called after
+// the body has been executed; iterates because an axiom can bring in further symbols.
+func (c *Ctx) addRelevantAxioms(st *State) {
+	done := map[*Axiom]bool{}
+	for changed := true; changed; {
+		changed = false
+		for _, ax := range c.P.CS.Axioms {
+			if ax.Lemma || done[ax] {
+				continue
+			}
+			use := false
+			for _, pr := range c.props {
+				if hasProp(ax.Props, pr) {
+					use = true
+				}
+			}
+			if !use || !c.mentionsDeclared(ax.E) {
+				continue
+			}
+			done[ax] = true
+			changed = true
+			env := &Env{c: c, names: map[string]*Val{}, noLocals: true, pkgPath: c.con.Pkg}
+			env.st = st
+			env.old = st
+			c.axioms = append(c.axioms, c.evalBool(ax.E, env, "axiom "+ax.Name))
+		}
+	}
+}
+
+func (c *Ctx) mentionsDeclared(e *Expr) bool {
+	if e == nil {
+		return false
+	}
+	if e.Op == "call" {
+		if _, ok := c.P.CS.Ghosts[e.Name]; ok && c.declared[quoteSym("G!"+e.Name)] {
+			return true
+		}
+	}
+	for _, a := range e.Args {
+		if c.mentionsDeclared(a) {
+			return true
+		}
 	}
 	return false
 }
